@@ -135,6 +135,8 @@ class VTask(asyncio.Task):
 def factory(loop, coro, **kw):
     t = VTask(coro, loop=loop, **kw)
     STATE["tasks"].append(t)
+    if STATE.pop("skip_next", False):
+        return t                                # the task that runs the top-level co_run: not a job's
     try:
         name = coro.cr_code.co_name
         loc = coro.cr_frame.f_locals
@@ -241,6 +243,20 @@ class Boom(Exception):
 async def body(job):
     spec = job.spec
     emitj(job, "begin", job.name)
+    if spec.get("peek"):
+        # a job that inspects the schedulers while they run (a progress display, say): no effect on the run expected
+        for o in [x for x in STATE["jobs"].values() if isinstance(x, PureScheduler) and getattr(x, "gen", None) == STATE.get("gen")]:
+            try:
+                if spec["peek"] == "exit_jobs":
+                    list(o.exit_jobs())
+                elif spec["peek"] == "list":
+                    o.list()
+                elif spec["peek"] == "dot":
+                    o.dot_format()
+                elif spec["peek"] == "debrief":
+                    o.debrief()
+            except Exception:                               # noqa
+                pass
     try:
         if spec["d"] is None:
             await asyncio.Event().wait()
@@ -255,7 +271,8 @@ async def body(job):
         emitj(job, "cdone", job.name)
         raise
     if spec.get("exc"):
-        job.exc_obj = Boom(job.name)
+        # (one in three with an empty message, like a bare `assert` or `raise TimeoutError()`)
+        job.exc_obj = Boom(job.name) if (spec.get("h", 0) + spec.get("k", 0)) % 3 else Boom()
         emitj(job, "raise", job.name)
         raise job.exc_obj
     job.ret_obj = ("result-of", job.name)
@@ -413,6 +430,10 @@ def _names(sc):
 def build(sc):
     objs = {}
 
+    between = (sc.get("between") or {}) if sc.get("rerun") else {}
+    later_jobs = set(between.get("added_jobs", []))
+    first = between.get("attrs", {})
+
     def mk(node):
         name = node["name"]
         if node["kind"] == "job":
@@ -420,8 +441,12 @@ def build(sc):
         else:
             kids = [mk(c) for c in node["children"]]
             cls = VP if node.get("pure") else VS
-            o = cls(*kids, name=name, spec=node)
+            # (jobs that join the scheduler only between the two runs are built, but not given to it yet)
+            o = cls(*[k for k in kids if k.name not in later_jobs], name=name, spec=node)
         objs[name] = o
+        # attributes as they are during the FIRST run (`sc["tree"]` describes the second, judged, run)
+        for field, val in first.get(name, {}).items():
+            setattr(o, ATTR[field], val)
         return o
     top = mk(sc["tree"])
 
@@ -432,6 +457,9 @@ def build(sc):
     late = dict(late, edges=[e for e in late.get("edges", []) if tuple(e) in final and e[0] in _names(sc) and e[1] in _names(sc)],
                 removed=[e for e in late.get("removed", []) if tuple(e) not in final and e[0] in _names(sc) and e[1] in _names(sc)]) if late else late
     late_add = {(a, b) for a, b in late.get("edges", [])}
+    # between two runs: edges that exist only in the second run (or touch a job that joins later)
+    late_add |= {(a, b) for a, b in final if tuple([a, b]) in {tuple(e) for e in between.get("edges", [])}
+                 or a in later_jobs or b in later_jobs}
 
     def link(node):
         for r in node.get("req", []):
@@ -468,7 +496,51 @@ def build(sc):
             objs[a].requires(objs[b])
         for a, b in late.get("removed", []):
             objs[a].requires(objs[b], remove=True)
+    for a, b in between.get("removed", []):
+        if (a, b) not in final and a in objs and b in objs and a not in later_jobs and b not in later_jobs:
+            objs[a].requires(objs[b])
     return top, objs
+
+
+ATTR = {"T": "timeout", "w": "jobs_window", "sdT": "shutdown_timeout", "crit": "critical", "forever": "forever"}
+
+
+def apply_between(sc, objs):
+    """what the user does between the two runs of a `rerun` scenario: attributes set to their final values, jobs added,
+    requirements added / removed, inspection calls; after it the objects are in the state `sc["tree"]` describes"""
+    between = sc.get("between") or {}
+    final = {(n["name"], r) for n, _ in _walk(sc["tree"]) for r in n.get("req", [])}
+    later_jobs = set(between.get("added_jobs", []))
+    parent = {c["name"]: n["name"] for n, _ in _walk(sc["tree"]) for c in n.get("children", [])}
+    specs = {n["name"]: n for n, _ in _walk(sc["tree"])}
+    with contextlib.redirect_stdout(io.StringIO()):
+        for op in between.get("inspect", []):
+            for o in [x for x in objs.values() if isinstance(x, PureScheduler)]:
+                try:
+                    if op == "exit_jobs":
+                        list(o.exit_jobs())
+                    elif op == "list":
+                        o.list()
+                    elif op == "dot":
+                        o.dot_format()
+                    elif op == "check":
+                        o.check_cycles()
+                    elif op == "debrief":
+                        o.debrief()
+                except Exception:                           # noqa
+                    pass
+    for name, fields in between.get("attrs", {}).items():
+        for field in fields:
+            setattr(objs[name], ATTR[field], specs[name].get(field))
+    for name in between.get("added_jobs", []):
+        if name in parent:
+            objs[parent[name]].add(objs[name])
+    for a, b in final:
+        if [a, b] in [list(e) for e in between.get("edges", [])] or a in later_jobs or b in later_jobs:
+            objs[a].requires(objs[b])
+    for a, b in between.get("removed", []):
+        if (a, b) not in final and a in objs and b in objs and objs[b] in objs[a].required:
+            objs[a].requires(objs[b], remove=True)
 
 
 def res_id(j):
@@ -536,16 +608,36 @@ def run(sc, linger=None, shutdown_again=True):
         async def main():
             if sc.get("rerun"):
                 # the same scheduler object run a first time, to its end; what is judged is the SECOND run
+                # (the first run may be that of a nested scheduler on its own: `between.first_root`)
+                first_root = objs.get((sc.get("between") or {}).get("first_root"), top)
                 try:
-                    await top.co_run()
+                    await first_root.co_run()
                 except Hang:
                     raise
                 except Exception:                           # noqa
                     pass
                 await asyncio.sleep(linger)
+                if sc.get("between"):
+                    if sc["between"].get("shutdown"):
+                        try:
+                            await top.co_shutdown()
+                        except Exception:                   # noqa
+                            pass
+                    apply_between(sc, objs)
                 emit("rerun", None)
             try:
-                res["r"] = ("ret", await top.co_run())
+                if sc.get("cancel_top") is not None:
+                    # the run is cancelled from outside (asyncio.wait_for around run(), task.cancel()): a fourth way
+                    # for a run to end; whatever the properties say of "any exit path" applies
+                    STATE["skip_next"] = True
+                    t_run = asyncio.ensure_future(top.co_run())
+                    loop.call_later(sc["cancel_top"], t_run.cancel)
+                    try:
+                        res["r"] = ("ret", await t_run)
+                    except asyncio.CancelledError:
+                        res["r"] = ("cancelled", "-")
+                else:
+                    res["r"] = ("ret", await top.co_run())
             except Hang:
                 raise
             except Exception as e:                          # noqa
